@@ -216,7 +216,13 @@ func (d *diskFlow) call(x *Exec, call *ast.CallExpr, lhs []ast.Expr, s St) ([]St
 				"commit reachable without a successful writeAndCloseFile", x.Trace())
 		}
 		if d.top == kGet {
-			d.note(s.Get("validated") != "" && s.Get("validated") != "unchecked-length", "R12e", site+":validated", d.pos(call),
+			valid := s.Get("validated") == "header"
+			if !valid && s.Get("validated") == "length" {
+				// the comparison must leave exactly copied == foundSize on this path
+				fs, _ := b.Term(x, identNamed(x, "foundSize"), s)
+				valid = relIs(s, s.Get("copied"), "==", fs, true) || s.Get("validated-by") == "isSizeMismatch"
+			}
+			d.note(valid, "R12e", site+":validated", d.pos(call),
 				"commit of a proxied entry is dominated by a validation of what was stored (casblob header check against the stated size for compressed CAS, byte count against the stated size otherwise)",
 				"path commits a backend stream whose length was never compared with the size it is indexed under (a short stream poisons the cache): validated="+s.Get("validated"), x.Trace())
 		}
@@ -384,7 +390,9 @@ func (d *diskFlow) cond(x *Exec, cond ast.Expr, truth bool, s St) ([]St, bool) {
 		if ct != "" && ((a0 == ct && a1 == fs) || (a0 == fs && a1 == ct)) {
 			outs := d.base.refineNoHook(x, cond, truth, s)
 			for i := range outs {
-				outs[i] = outs[i].Set("validated", "length")
+				if !truth {
+					outs[i] = outs[i].Set("validated", "length").Set("validated-by", "isSizeMismatch")
+				}
 			}
 			return outs, true
 		}
@@ -454,7 +462,7 @@ func (d *diskFlow) exit(x *Exec, ret *ast.ReturnStmt, s St) {
 			}
 		}
 	case kAvail:
-		if RetNil(fn, s, 0) == "nonnil" {
+		if RetNil(fn, s, 0) != "nil" {
 			d.note(s.Get("reserveCalled") == "", "R17g", fn.Name+":"+key+":hit-no-reserve", pos, "a local hit is returned without calling Reserve (reads are not subject to admission)",
 				"hit path passes through Reserve", x.Trace())
 		} else {
